@@ -284,4 +284,1042 @@ Section Inv.
       + apply Hq1; [exact Hne|]. apply F. exists rx. rewrite <- (Hlk x Hne). auto.
     - exact Hnd'.
   Qed.
+
+  Lemma NoDup_snoc : forall (l : list Z) x, NoDup l -> ~ In x l -> NoDup (l ++ [x]).
+  Proof.
+    induction l as [|a t IH]; cbn; intros x Hnd Hni.
+    - constructor; [tauto|constructor].
+    - inversion Hnd as [|? ? Ha Ht]; subst. constructor.
+      + intros Hin. apply in_app_or in Hin. destruct Hin as [Hin|[Hin|[]]]; [contradiction|].
+        subst. apply Hni. left. reflexivity.
+      + apply IH; [exact Ht|]. intros Hin. apply Hni. right. exact Hin.
+  Qed.
+
+  Lemma refs_present : forall n w r ru s,
+    winv n w s -> alookup r (runs s) = Some ru -> run_refs w ru = true -> alookup w (sems s) <> None.
+  Proof.
+    intros n w r ru s Hi H0 Hr Hn. pose proof (wi_absent _ _ _ Hi Hn) as C.
+    rewrite acount_zero_iff in C. rewrite (C r ru (alookup_Some_in _ _ _ H0)) in Hr. discriminate.
+  Qed.
+
+  Lemma not_waiting_not_queued : forall n w r ru s,
+    winv n w s -> alookup r (runs s) = Some ru -> r_pc ru <> PWaiting ->
+    ~ In r (akeys (s_waiters (semv n s w))).
+  Proof.
+    intros n w r ru s Hi H0 Hpc Hin. destruct (wi_waiters _ _ _ Hi r Hin) as (ru1 & P & Q & R).
+    rewrite H0 in P. inversion P; subst. contradiction.
+  Qed.
+
+  (* T7: the run changes, the semaphore does not, and the run's classification is unchanged *)
+  Lemma winv_setrun : forall n w r ru ru' s,
+    NoDup (akeys (runs s)) -> alookup r (runs s) = Some ru -> r_wf ru = w -> r_wf ru' = w ->
+    pc_holding (r_pc ru') = pc_holding (r_pc ru) ->
+    (r_pc ru' = PWaiting <-> r_pc ru = PWaiting) ->
+    (run_refs w ru' = true -> run_refs w ru = true) ->
+    winv n w s -> winv n w (set_run r ru' s).
+  Proof.
+    intros n w r ru ru' s Hnd H0 Hw Hw' Hh Hpw Hrf Hi. unfold set_run.
+    apply winv_commit with (ru := ru) (sm' := semv n s w); try assumption; try reflexivity.
+    - intros Hn. split; [exact Hn|]. destruct (run_refs w ru') eqn:E; [|reflexivity].
+      exfalso. exact (refs_present n w r ru s Hi H0 (Hrf eq_refl) Hn).
+    - apply (wi_nonneg _ _ _ Hi).
+    - rewrite Hh. reflexivity.
+    - apply (wi_wake _ _ _ Hi).
+    - intros x Hx. destruct (Z.eq_dec x r) as [->|Hne]; [right|left; auto].
+      split; [reflexivity|]. apply Hpw. destruct (wi_waiters _ _ _ Hi r Hx) as (ru1 & P & Q & R).
+      rewrite H0 in P. inversion P; subst. exact R.
+    - auto.
+    - intros Hp. apply (wi_queued _ _ _ Hi). exists ru. split; [exact H0|]. split; [exact Hw|]. apply Hpw. exact Hp.
+    - apply (wi_nodup _ _ _ Hi).
+  Qed.
+
+  (* T1: first segment of the run task — acquire (fast path or enqueue) *)
+  Lemma winv_acquire : forall n w r ru s,
+    NoDup (akeys (runs s)) -> alookup r (runs s) = Some ru -> r_wf ru = w -> r_pc ru = PCreated ->
+    winv n w s ->
+    winv n w (let '(sm', got) := sem_acquire r (semv n s w) in
+              commit w sm' r (mkRun w (if got then PHolding 0 else PWaiting) false) s).
+  Proof.
+    intros n w r ru s Hnd H0 Hw Hpc Hi.
+    assert (Hnq : ~ In r (akeys (s_waiters (semv n s w)))).
+    { apply (not_waiting_not_queued n w r ru s Hi H0). rewrite Hpc. discriminate. }
+    unfold sem_acquire. destruct (sem_locked (semv n s w)) eqn:L; unfold commit.
+    - apply winv_commit with (ru := ru) (sm' := mkSem (s_value (semv n s w)) (s_waiters (semv n s w) ++ [(r, FPending)]));
+        try assumption; try reflexivity; cbn [s_value s_waiters r_pc r_wf pc_holding].
+      + rewrite alookup_aset_same. reflexivity.
+      + rewrite alookup_aset_same. discriminate.
+      + apply (wi_nonneg _ _ _ Hi).
+      + rewrite n_woken_snoc, Hpc. reflexivity.
+      + intros _. unfold sem_locked in L. apply orb_true_iff in L. destruct L as [L|L].
+        * left. apply Z.eqb_eq. exact L.
+        * rewrite n_woken_snoc. destruct (noncancelled_exists _ L) as [P|P]; [|right; exact P].
+          apply (wi_wake _ _ _ Hi). exact P.
+      + intros x Hx. rewrite akeys_app in Hx. apply in_app_or in Hx. destruct Hx as [Hx|[<-|[]]].
+        * left. split; [|exact Hx]. intros ->. contradiction.
+        * right. auto.
+      + intros x _ Hx. rewrite akeys_app. apply in_or_app. left. exact Hx.
+      + intros _. rewrite akeys_app. apply in_or_app. right. left. reflexivity.
+      + rewrite akeys_app. apply NoDup_snoc; [apply (wi_nodup _ _ _ Hi)|exact Hnq].
+    - unfold sem_locked in L. apply orb_false_iff in L. destruct L as [L1 L2].
+      apply Z.eqb_neq in L1. destruct (all_cancelled_counts _ L2) as [P1 P2].
+      apply winv_commit with (ru := ru) (sm' := mkSem (s_value (semv n s w) - 1) (s_waiters (semv n s w)));
+        try assumption; try reflexivity; cbn [s_value s_waiters r_pc r_wf pc_holding].
+      + rewrite alookup_aset_same. reflexivity.
+      + rewrite alookup_aset_same. discriminate.
+      + pose proof (wi_nonneg _ _ _ Hi). lia.
+      + rewrite Hpc. cbn. lia.
+      + rewrite P1. lia.
+      + intros x Hx. left. split; [|exact Hx]. intros ->. contradiction.
+      + auto.
+      + discriminate.
+      + apply (wi_nodup _ _ _ Hi).
+  Qed.
+
+  Lemma wake_up_next_spec : forall sm,
+    (wake_up_next sm = sm /\ n_pending (s_waiters sm) = 0%nat) \/
+    (s_value (wake_up_next sm) = s_value sm - 1 /\
+     n_woken (s_waiters (wake_up_next sm)) = S (n_woken (s_waiters sm)) /\
+     n_pending (s_waiters sm) = S (n_pending (s_waiters (wake_up_next sm))) /\
+     akeys (s_waiters (wake_up_next sm)) = akeys (s_waiters sm)).
+  Proof.
+    intros sm. unfold wake_up_next. destruct (wake_first (s_waiters sm)) as [ws'|] eqn:E.
+    - right. destruct (wake_first_spec _ _ E) as (A & B & C). cbn. auto.
+    - left. split; [reflexivity|]. apply wake_first_none. exact E.
+  Qed.
+
+  Lemma wake_up_next_keys : forall sm, akeys (s_waiters (wake_up_next sm)) = akeys (s_waiters sm).
+  Proof. intros sm. destruct (wake_up_next_spec sm) as [(-> & _)|(_ & _ & _ & H)]; [reflexivity|exact H]. Qed.
+
+  (* the shape shared by the three resumptions and release: remove r (or nobody), adjust the
+     counter, maybe wake the next waiter *)
+  Lemma winv_after_wake : forall n w r ru ru' sm1 s,
+    NoDup (akeys (runs s)) -> alookup r (runs s) = Some ru -> r_wf ru = w -> r_wf ru' = w ->
+    winv n w s -> r_pc ru' <> PWaiting ->
+    0 < s_value sm1 ->
+    s_value sm1 + Z.of_nat (b2n (pc_holding (r_pc ru'))) + Z.of_nat (n_woken (s_waiters sm1))
+      = s_value (semv n s w) + Z.of_nat (b2n (pc_holding (r_pc ru))) + Z.of_nat (n_woken (s_waiters (semv n s w))) ->
+    (forall x, In x (akeys (s_waiters sm1)) -> x <> r /\ In x (akeys (s_waiters (semv n s w)))) ->
+    (forall x, x <> r -> In x (akeys (s_waiters (semv n s w))) -> In x (akeys (s_waiters sm1))) ->
+    NoDup (akeys (s_waiters sm1)) ->
+    winv n w (commit w (wake_up_next sm1) r ru' s).
+  Proof.
+    intros n w r ru ru' sm1 s Hnd H0 Hw Hw' Hi Hpc Hpos Hsum Hk Hq Hnd1. unfold commit.
+    apply winv_commit with (ru := ru) (sm' := wake_up_next sm1); try assumption; try reflexivity.
+    - rewrite alookup_aset_same. reflexivity.
+    - rewrite alookup_aset_same. discriminate.
+    - destruct (wake_up_next_spec sm1) as [(-> & _)|(A & _)]; lia.
+    - destruct (wake_up_next_spec sm1) as [(-> & _)|(A & B & _)]; lia.
+    - intros Hp. destruct (wake_up_next_spec sm1) as [(E & P)|(A & B & _)].
+      + rewrite E in Hp. lia.
+      + right. lia.
+    - intros x Hx. rewrite wake_up_next_keys in Hx. left. apply Hk. exact Hx.
+    - intros x Hne Hx. rewrite wake_up_next_keys. apply Hq; assumption.
+    - intros Hp. contradiction.
+    - rewrite wake_up_next_keys. exact Hnd1.
+  Qed.
+
+  (* same without the wake-up (counter may be zero) *)
+  Lemma winv_no_wake : forall n w r ru ru' sm1 s,
+    NoDup (akeys (runs s)) -> alookup r (runs s) = Some ru -> r_wf ru = w -> r_wf ru' = w ->
+    winv n w s -> r_pc ru' <> PWaiting ->
+    0 <= s_value sm1 ->
+    s_value sm1 + Z.of_nat (b2n (pc_holding (r_pc ru'))) + Z.of_nat (n_woken (s_waiters sm1))
+      = s_value (semv n s w) + Z.of_nat (b2n (pc_holding (r_pc ru))) + Z.of_nat (n_woken (s_waiters (semv n s w))) ->
+    ((0 < n_pending (s_waiters sm1))%nat -> s_value sm1 = 0 \/ (0 < n_woken (s_waiters sm1))%nat) ->
+    (forall x, In x (akeys (s_waiters sm1)) -> x <> r /\ In x (akeys (s_waiters (semv n s w)))) ->
+    (forall x, x <> r -> In x (akeys (s_waiters (semv n s w))) -> In x (akeys (s_waiters sm1))) ->
+    NoDup (akeys (s_waiters sm1)) ->
+    winv n w (commit w sm1 r ru' s).
+  Proof.
+    intros n w r ru ru' sm1 s Hnd H0 Hw Hw' Hi Hpc Hpos Hsum Hwk Hk Hq Hnd1. unfold commit.
+    apply winv_commit with (ru := ru) (sm' := sm1); try assumption; try reflexivity.
+    - rewrite alookup_aset_same. reflexivity.
+    - rewrite alookup_aset_same. discriminate.
+    - intros x Hx. left. apply Hk. exact Hx.
+    - intros Hp. contradiction.
+  Qed.
+
+  Lemma removed_keys : forall n w r s, winv n w s ->
+    (forall x, In x (akeys (w_remove r (s_waiters (semv n s w)))) -> x <> r /\ In x (akeys (s_waiters (semv n s w)))) /\
+    (forall x, x <> r -> In x (akeys (s_waiters (semv n s w))) -> In x (akeys (w_remove r (s_waiters (semv n s w))))) /\
+    NoDup (akeys (w_remove r (s_waiters (semv n s w)))).
+  Proof.
+    intros n w r s Hi. destruct (w_remove_nodup r _ (wi_nodup _ _ _ Hi)) as (A & B). repeat split.
+    - intros ->. contradiction.
+    - eapply w_remove_keys_incl. exact H.
+    - intros x Hne Hx. apply w_remove_keys_other; assumption.
+    - exact A.
+  Qed.
+
+  Lemma aupd_id : forall (r : Z) (ru : run) l, NoDup (akeys l) -> alookup r l = Some ru -> aupd r ru l = l.
+  Proof.
+    induction l as [|[k v] t IH]; cbn [alookup aupd akeys map fst]; intros Hnd H; [reflexivity|].
+    inversion Hnd as [|? ? Hni Hnd']; subst. destruct (k =? r) eqn:E.
+    - inversion H; subst. apply Z.eqb_eq in E. subst k. f_equal. apply aupd_notin. exact Hni.
+    - f_equal. apply IH; assumption.
+  Qed.
+
+  Lemma Inv_upd : forall s r ru ru' tab',
+    Inv s -> alookup r (runs s) = Some ru -> r_wf ru' = r_wf ru ->
+    (forall w, w <> r_wf ru -> alookup w tab' = alookup w (sems s)) ->
+    (forall n, limit (r_wf ru) = Some n -> 0 <= n -> winv n (r_wf ru) (mkSt tab' (aupd r ru' (runs s)))) ->
+    Inv (mkSt tab' (aupd r ru' (runs s))).
+  Proof.
+    intros s r ru ru' tab' [Hnd Hall] H0 Hw Htab Hact. split.
+    - cbn [runs]. rewrite akeys_aupd. exact Hnd.
+    - intros w n Hl Hn. destruct (Z.eq_dec w (r_wf ru)) as [->|Hne].
+      + apply Hact; assumption.
+      + apply winv_frame_upd with (ru0 := ru); try assumption.
+        * intros E. apply Hne. symmetry. exact E.
+        * rewrite Hw. intros E. apply Hne. symmetry. exact E.
+        * apply Htab. exact Hne.
+        * apply Hall; assumption.
+  Qed.
+
+  Lemma Inv_setrun : forall s r ru ru',
+    Inv s -> alookup r (runs s) = Some ru -> r_wf ru' = r_wf ru ->
+    pc_holding (r_pc ru') = pc_holding (r_pc ru) ->
+    (r_pc ru' = PWaiting <-> r_pc ru = PWaiting) ->
+    (forall w, run_refs w ru' = true -> run_refs w ru = true) ->
+    Inv (set_run r ru' s).
+  Proof.
+    intros s r ru ru' Hi H0 Hw Hh Hpw Hrf. unfold set_run. apply Inv_upd with (ru := ru); try assumption.
+    - reflexivity.
+    - intros n Hl Hn. destruct Hi as [Hnd Hall].
+      apply (winv_setrun n (r_wf ru) r ru ru' s); auto.
+  Qed.
+
+  Lemma semv_some : forall n s w sm, alookup w (sems s) = Some sm -> semv n s w = sm.
+  Proof. intros n s w sm H. unfold semv. rewrite H. reflexivity. Qed.
+
+  Theorem step_inv : forall s a, Inv s -> Inv (step limit s a).
+  Proof.
+    intros s a Hi. pose proof Hi as [Hnd Hall].
+    destruct a as [r w1|r|r|r|r|r|w1|]; cbn [step].
+    - (* AStart *)
+      destruct (alookup r (runs s)) as [ru|] eqn:H0; [exact Hi|]. split.
+      + cbn [runs]. rewrite akeys_app. cbn. apply NoDup_snoc; [exact Hnd|].
+        apply alookup_None_notin. exact H0.
+      + intros w n Hl Hn. destruct (Hall w n Hl Hn) as [A B C D E F G].
+        assert (Hsv : semv n (mkSt (sems s) (runs s ++ [(r, mkRun w1 PCreated false)])) w = semv n s w) by reflexivity.
+        assert (Hwr : forall x, waiting_run w x (mkSt (sems s) (runs s ++ [(r, mkRun w1 PCreated false)])) <-> waiting_run w x s).
+        { intros x. unfold waiting_run. cbn [runs]. rewrite alookup_app. cbn [alookup].
+          destruct (alookup x (runs s)) as [rx|] eqn:Ex; [tauto|]. destruct (r =? x).
+          - split; intros (ru & P & Q & R); [inversion P; subst; discriminate|discriminate].
+          - split; intros (ru & P & _); discriminate. }
+        constructor; rewrite ?Hsv; try assumption.
+        * unfold holders. cbn [runs]. rewrite acount_app. unfold acount at 2. cbn. rewrite andb_false_r. cbn.
+          unfold holders in B. lia.
+        * cbn [sems runs]. intros Hn0. rewrite acount_app, (C Hn0). unfold acount. cbn.
+          unfold run_refs. cbn. rewrite andb_false_r. reflexivity.
+        * intros x Hx. apply Hwr. apply E. exact Hx.
+        * intros x Hx. apply F. apply Hwr. exact Hx.
+    - (* ARun *)
+      destruct (alookup r (runs s)) as [ru|] eqn:H0; [|exact Hi].
+      destruct (r_pc ru) eqn:Hpc; try exact Hi.
+      + (* PCreated *)
+        destruct (r_mc ru) eqn:Hmc.
+        * apply Inv_setrun with (ru := ru); auto; cbn; rewrite ?Hpc; try reflexivity.
+          -- split; discriminate.
+          -- intros w. unfold run_refs. cbn. rewrite andb_false_r. discriminate.
+        * destruct (limit (r_wf ru)) as [n|] eqn:Hl.
+          -- destruct (sem_acquire r match alookup (r_wf ru) (sems s) with Some x => x | None => fresh_sem n end)
+               as [sm' got] eqn:Eacq.
+             unfold commit. apply Inv_upd with (ru := ru); try assumption; try reflexivity.
+             ++ intros w Hne. apply alookup_aset_other. exact Hne.
+             ++ intros n' Hl' Hn'. rewrite Hl in Hl'. inversion Hl'; subst n'.
+                pose proof (winv_acquire n (r_wf ru) r ru s Hnd H0 eq_refl Hpc (Hall _ _ Hl Hn')) as W.
+                unfold semv in W. rewrite Eacq in W. exact W.
+          -- apply Inv_upd with (ru := ru); try assumption; try reflexivity.
+             intros n Hl'. rewrite Hl in Hl'. discriminate.
+      + (* PWaiting *)
+        destruct (alookup (r_wf ru) (sems s)) as [sm|] eqn:Hs; [|exact Hi].
+        unfold w_find. destruct (alookup r (s_waiters sm)) as [f|] eqn:Hf; [|exact Hi].
+        destruct f; [exact Hi| |].
+        * (* woken *)
+          destruct (r_mc ru) eqn:Hmc; unfold commit.
+          -- (* cancelled although woken *)
+             apply Inv_upd with (ru := ru); try assumption; try reflexivity.
+             ++ intros w Hne. apply alookup_aset_other. exact Hne.
+             ++ intros n Hl Hn. pose proof (Hall _ _ Hl Hn) as W.
+                pose proof (semv_some n s _ _ Hs) as Hsv.
+                destruct (removed_keys n (r_wf ru) r s W) as (K1 & K2 & K3). rewrite Hsv in K1, K2, K3.
+                destruct (w_remove_counts r _ _ Hf) as (C1 & C2). cbn in C1, C2.
+                unfold sem_resume_cancel_woken.
+                apply (winv_after_wake n (r_wf ru) r ru (mkRun (r_wf ru) PDone true)
+                         (mkSem (s_value sm + 1) (w_remove r (s_waiters sm))) s); auto;
+                  cbn [r_pc r_wf s_value s_waiters pc_holding b2n]; rewrite ?Hsv, ?Hpc; cbn [pc_holding b2n];
+                  try discriminate; try assumption.
+                ** pose proof (wi_nonneg _ _ _ W). rewrite Hsv in H. lia.
+                ** lia.
+          -- apply Inv_upd with (ru := ru); try assumption; try reflexivity.
+             ++ intros w Hne. apply alookup_aset_other. exact Hne.
+             ++ intros n Hl Hn. pose proof (Hall _ _ Hl Hn) as W.
+                pose proof (semv_some n s _ _ Hs) as Hsv.
+                destruct (removed_keys n (r_wf ru) r s W) as (K1 & K2 & K3). rewrite Hsv in K1, K2, K3.
+                destruct (w_remove_counts r _ _ Hf) as (C1 & C2). cbn in C1, C2.
+                pose proof (wi_nonneg _ _ _ W) as Hnn. rewrite Hsv in Hnn.
+                unfold sem_resume_ok. cbn [s_value].
+                destruct (0 <? s_value sm) eqn:Epos.
+                ** apply Z.ltb_lt in Epos.
+                   apply (winv_after_wake n (r_wf ru) r ru (mkRun (r_wf ru) (PHolding 0) false)
+                            (mkSem (s_value sm) (w_remove r (s_waiters sm))) s); auto;
+                     cbn [r_pc r_wf s_value s_waiters pc_holding b2n]; rewrite ?Hsv, ?Hpc; cbn [pc_holding b2n];
+                     try discriminate; try assumption.
+                   lia.
+                ** apply Z.ltb_ge in Epos.
+                   apply (winv_no_wake n (r_wf ru) r ru (mkRun (r_wf ru) (PHolding 0) false)
+                            (mkSem (s_value sm) (w_remove r (s_waiters sm))) s); auto;
+                     cbn [r_pc r_wf s_value s_waiters pc_holding b2n]; rewrite ?Hsv, ?Hpc; cbn [pc_holding b2n];
+                     try discriminate; try assumption.
+                   --- lia.
+                   --- intros _. left. lia.
+        * (* future cancelled *)
+          unfold commit. apply Inv_upd with (ru := ru); try assumption; try reflexivity.
+          -- intros w Hne. apply alookup_aset_other. exact Hne.
+          -- intros n Hl Hn. pose proof (Hall _ _ Hl Hn) as W.
+             pose proof (semv_some n s _ _ Hs) as Hsv.
+             destruct (removed_keys n (r_wf ru) r s W) as (K1 & K2 & K3). rewrite Hsv in K1, K2, K3.
+             destruct (w_remove_counts r _ _ Hf) as (C1 & C2). cbn in C1, C2.
+             pose proof (wi_nonneg _ _ _ W) as Hnn. rewrite Hsv in Hnn.
+             pose proof (wi_wake _ _ _ W) as Hwk. rewrite Hsv in Hwk.
+             unfold sem_resume_cancelled.
+             apply (winv_no_wake n (r_wf ru) r ru (mkRun (r_wf ru) PDone (r_mc ru))
+                      (mkSem (s_value sm) (w_remove r (s_waiters sm))) s); auto;
+               cbn [r_pc r_wf s_value s_waiters pc_holding b2n]; rewrite ?Hsv, ?Hpc; cbn [pc_holding b2n];
+               try discriminate; try assumption.
+             ++ lia.
+             ++ intros Hp. destruct Hwk as [Hz|Hz]; [lia|left; exact Hz|right; lia].
+    - (* AEnter *)
+      destruct (alookup r (runs s)) as [ru|] eqn:H0; [|exact Hi].
+      destruct (r_pc ru) eqn:Hpc; try exact Hi.
+      apply Inv_setrun with (ru := ru); auto; cbn; rewrite ?Hpc; try reflexivity.
+      + split; discriminate.
+      + intros w. unfold run_refs. cbn. rewrite Hpc. cbn. auto.
+    - (* AExit *)
+      destruct (alookup r (runs s)) as [ru|] eqn:H0; [|exact Hi].
+      destruct (r_pc ru) as [| |[|a]|] eqn:Hpc; try exact Hi.
+      apply Inv_setrun with (ru := ru); auto; cbn; rewrite ?Hpc; try reflexivity.
+      + split; discriminate.
+      + intros w. unfold run_refs. cbn. rewrite Hpc. cbn. auto.
+    - (* AFinish *)
+      destruct (alookup r (runs s)) as [ru|] eqn:H0; [|exact Hi].
+      destruct (r_pc ru) eqn:Hpc; try exact Hi.
+      destruct (limit (r_wf ru)) as [n|] eqn:Hl.
+      + destruct (alookup (r_wf ru) (sems s)) as [sm|] eqn:Hs.
+        * unfold commit. apply Inv_upd with (ru := ru); try assumption; try reflexivity.
+          -- intros w Hne. apply alookup_aset_other. exact Hne.
+          -- intros n' Hl' Hn'. pose proof (Hall _ _ Hl' Hn') as W.
+             pose proof (semv_some n' s _ _ Hs) as Hsv.
+             pose proof (wi_nonneg _ _ _ W) as Hnn. rewrite Hsv in Hnn.
+             assert (Hnq : ~ In r (akeys (s_waiters sm))).
+             { rewrite <- Hsv. apply (not_waiting_not_queued n' (r_wf ru) r ru s W H0). rewrite Hpc. discriminate. }
+             unfold sem_release.
+             apply (winv_after_wake n' (r_wf ru) r ru (mkRun (r_wf ru) PDone (r_mc ru))
+                      (mkSem (s_value sm + 1) (s_waiters sm)) s); auto;
+               cbn [r_pc r_wf s_value s_waiters pc_holding b2n]; rewrite ?Hsv, ?Hpc; cbn [pc_holding b2n];
+               try discriminate; try assumption.
+             ++ lia.
+             ++ lia.
+             ++ intros x Hx. split; [|exact Hx]. intros ->. contradiction.
+             ++ auto.
+             ++ rewrite <- Hsv. apply (wi_nodup _ _ _ W).
+        * (* impossible: a holder of a limited instance whose semaphore is gone *)
+          unfold set_run. apply Inv_upd with (ru := ru); try assumption; try reflexivity.
+          intros n' Hl' Hn'. exfalso.
+          apply (refs_present n' (r_wf ru) r ru s (Hall _ _ Hl' Hn') H0); [|exact Hs].
+          unfold run_refs. rewrite Z.eqb_refl, Hpc. reflexivity.
+      + unfold set_run. apply Inv_upd with (ru := ru); try assumption; try reflexivity.
+        intros n Hl'. rewrite Hl in Hl'. discriminate.
+    - (* ACancel *)
+      destruct (alookup r (runs s)) as [ru|] eqn:H0; [|exact Hi].
+      destruct (r_pc ru) eqn:Hpc; try exact Hi.
+      + apply Inv_setrun with (ru := ru); auto; cbn; rewrite ?Hpc; try reflexivity.
+        intros w. unfold run_refs. cbn. rewrite Hpc. auto.
+      + destruct (alookup (r_wf ru) (sems s)) as [sm|] eqn:Hs; [|exact Hi].
+        unfold w_find. destruct (alookup r (s_waiters sm)) as [f|] eqn:Hf; [|exact Hi].
+        destruct f; [| |exact Hi].
+        * (* pending future cancelled *)
+          rewrite <- (aupd_id r ru (runs s) Hnd H0) at 1.
+          apply Inv_upd with (ru := ru); try assumption; try reflexivity.
+          -- intros w Hne. apply alookup_aset_other. exact Hne.
+          -- intros n Hl Hn. pose proof (Hall _ _ Hl Hn) as W.
+             pose proof (semv_some n s _ _ Hs) as Hsv.
+             destruct (w_cancel_spec r _ Hf) as (C1 & C2 & C3).
+             pose proof (wi_nonneg _ _ _ W) as Hnn. rewrite Hsv in Hnn.
+             pose proof (wi_wake _ _ _ W) as Hwk. rewrite Hsv in Hwk.
+             pose proof (wi_nodup _ _ _ W) as Hnd2. rewrite Hsv in Hnd2.
+             apply winv_commit with (ru := ru) (sm' := mkSem (s_value sm) (w_cancel r (s_waiters sm)));
+               try assumption; try reflexivity; cbn [s_value s_waiters]; rewrite ?Hsv, ?C1, ?C3; try assumption.
+             ++ rewrite alookup_aset_same. reflexivity.
+             ++ rewrite alookup_aset_same. discriminate.
+             ++ reflexivity.
+             ++ intros Hp. apply Hwk. lia.
+             ++ intros x Hx. destruct (Z.eq_dec x r) as [->|Hne]; [right; auto|left; auto].
+             ++ auto.
+             ++ intros _. eapply alookup_in_keys. exact Hf.
+        * apply Inv_setrun with (ru := ru); auto; cbn; rewrite ?Hpc; try reflexivity.
+          intros w. unfold run_refs. cbn. rewrite Hpc. auto.
+    - (* AGc *)
+      destruct (refs w1 (runs s)) eqn:Hr; [exact Hi|]. apply refs_false_count in Hr. split; [exact Hnd|].
+      intros w n Hl Hn. destruct (Z.eq_dec w w1) as [->|Hne].
+      + assert (Hsv : semv n (mkSt (adel w1 (sems s)) (runs s)) w1 = fresh_sem n).
+        { unfold semv. cbn [sems]. rewrite alookup_adel_same. reflexivity. }
+        assert (Hh : holders w1 s = 0%nat).
+        { pose proof (count_le_refs w1 (runs s)). unfold holders. unfold is_holder in H. lia. }
+        assert (Hnw : forall x, ~ waiting_run w1 x s).
+        { intros x (rx & P & Q & R). rewrite acount_zero_iff in Hr.
+          pose proof (Hr x rx (alookup_Some_in _ _ _ P)) as Hf. unfold run_refs in Hf.
+          rewrite Q, Z.eqb_refl, R in Hf. discriminate. }
+        constructor; rewrite ?Hsv; cbn [fresh_sem s_value s_waiters].
+        * lia.
+        * unfold n_woken, acount; cbn. unfold holders in *. cbn [runs]. lia.
+        * intros _. exact Hr.
+        * unfold n_pending, acount. cbn. lia.
+        * cbn. tauto.
+        * intros x Hx. exfalso. exact (Hnw x Hx).
+        * constructor.
+      + apply winv_frame_sems; [|apply Hall; assumption]. apply alookup_adel_other. exact Hne.
+    - exact Hi.
+  Qed.
+
+  Theorem reachable_inv : forall sched, Inv (exec limit init sched).
+  Proof. intros sched. unfold exec. apply inv_all_schedules; [apply step_inv|apply Inv_init]. Qed.
+
+  Lemma inv_limit : forall s w n, Inv s -> limit w = Some n -> 0 <= n ->
+    Z.of_nat (executing w s) <= Z.of_nat (holders w s) /\ Z.of_nat (holders w s) <= n.
+  Proof.
+    intros s w n [_ Hall] Hl Hn. destruct (Hall w n Hl Hn) as [A B _ _ _ _ _].
+    pose proof (executing_le_holders w s). lia.
+  Qed.
+
+  (* at most n runs of an instance hold its permit — after every schedule, hence (a prefix of a
+     schedule is a schedule) at every moment of every execution *)
+  Theorem limit_all_schedules : forall sched w n, limit w = Some n -> 0 <= n ->
+    Z.of_nat (executing w (exec limit init sched)) <= n /\ Z.of_nat (holders w (exec limit init sched)) <= n.
+  Proof.
+    intros sched w n Hl Hn. destruct (inv_limit _ w n (reachable_inv sched) Hl Hn). lia.
+  Qed.
+
+  Theorem limit_every_moment : forall sched k w n, limit w = Some n -> 0 <= n ->
+    Z.of_nat (executing w (exec limit init (firstn k sched))) <= n.
+  Proof. intros. apply limit_all_schedules; assumption. Qed.
+
+  (* the permit accounting itself: free + held + handed-over-but-not-yet-resumed = n *)
+  Theorem permits_conserved : forall sched w n, limit w = Some n -> 0 <= n ->
+    let s := exec limit init sched in
+    0 <= s_value (semv n s w) /\
+    s_value (semv n s w) + Z.of_nat (holders w s) + Z.of_nat (n_woken (s_waiters (semv n s w))) = n.
+  Proof.
+    intros sched w n Hl Hn s. destruct (reachable_inv sched) as [_ Hall].
+    destruct (Hall w n Hl Hn) as [A B _ _ _ _ _]. auto.
+  Qed.
+
+  (* dropping the semaphore from the weak dictionary is only possible in a state in which a fresh
+     Semaphore(n) is indistinguishable from the dropped one *)
+  Theorem gc_only_when_fresh : forall sched w n sm, limit w = Some n -> 0 <= n ->
+    let s := exec limit init sched in
+    alookup w (sems s) = Some sm -> refs w (runs s) = false -> sm = fresh_sem n.
+  Proof.
+    intros sched w n sm Hl Hn s Hs Hr. destruct (reachable_inv sched) as [_ Hall].
+    destruct (Hall w n Hl Hn) as [A B C D E F G]. fold s in A, B, C, D, E, F, G.
+    rewrite (semv_some n s w sm Hs) in *. apply refs_false_count in Hr.
+    assert (Hh : holders w s = 0%nat).
+    { pose proof (count_le_refs w (runs s)). unfold holders. unfold is_holder in H. lia. }
+    assert (Hw : s_waiters sm = []).
+    { destruct (s_waiters sm) as [|[x f] t] eqn:Ews; [reflexivity|]. exfalso.
+      destruct (E x) as (rx & P & Q & R); [left; reflexivity|].
+      rewrite acount_zero_iff in Hr. pose proof (Hr x rx (alookup_Some_in _ _ _ P)) as Hf.
+      unfold run_refs in Hf. rewrite Q, Z.eqb_refl, R in Hf. discriminate. }
+    rewrite Hw, Hh in B. unfold n_woken, acount in B. cbn in B.
+    destruct sm as [v ws]. cbn in *. subst ws. unfold fresh_sem. f_equal. lia.
+  Qed.
+
+  (* -- no lost wake-up ------------------------------------------------------------------- *)
+
+  Lemma count_pos_exists : forall (P : futst -> bool) ws, (0 < acount P ws)%nat ->
+    exists r f, In (r, f) ws /\ P f = true.
+  Proof.
+    induction ws as [|[r f] t IH]; [unfold acount; cbn; lia|]. rewrite acount_cons.
+    destruct (P f) eqn:E.
+    - intros _. exists r, f. split; [left; reflexivity|exact E].
+    - intros H. destruct IH as (r' & f' & A & B); [lia|]. exists r', f'. split; [right; exact A|exact B].
+  Qed.
+
+  Lemma nodup_in_lookup : forall (r : Z) (f : futst) ws, NoDup (akeys ws) -> In (r, f) ws -> alookup r ws = Some f.
+  Proof.
+    induction ws as [|[k v] t IH]; cbn [alookup akeys map fst]; intros Hnd Hin; [destruct Hin|].
+    inversion Hnd as [|? ? Hni Hnd']; subst. destruct Hin as [Hin|Hin].
+    - inversion Hin; subst. rewrite Z.eqb_refl. reflexivity.
+    - destruct (k =? r) eqn:E.
+      + apply Z.eqb_eq in E. subst k. exfalso. apply Hni. change r with (fst (r, f)). apply in_map. exact Hin.
+      + apply IH; assumption.
+  Qed.
+
+  (* whenever a run of w waits for a wake-up, a permit is either held by a run that can finish or
+     already handed to a waiting run that the event loop can resume; with n >= 1 nobody sleeps on a
+     free semaphore *)
+  Theorem no_lost_wakeup : forall sched w n sm, limit w = Some n -> 1 <= n ->
+    let s := exec limit init sched in
+    alookup w (sems s) = Some sm -> (0 < n_pending (s_waiters sm))%nat ->
+    (0 < holders w s)%nat \/
+    (exists r, alookup r (s_waiters sm) = Some FWoken /\ waiting_run w r s).
+  Proof.
+    intros sched w n sm Hl Hn s Hs Hp. destruct (reachable_inv sched) as [_ Hall].
+    assert (Hn0 : 0 <= n) by lia.
+    destruct (Hall w n Hl Hn0) as [A B C D E F G]. fold s in A, B, C, D, E, F, G.
+    rewrite (semv_some n s w sm Hs) in *.
+    assert (Hcase : (0 < holders w s)%nat \/ (0 < n_woken (s_waiters sm))%nat).
+    { destruct (D Hp) as [Hz|Hz]; [|right; exact Hz]. lia. }
+    destruct Hcase as [Hh|Hw]; [left; exact Hh|right].
+    destruct (count_pos_exists _ _ Hw) as (r & f & Hin & Hf). destruct f; try discriminate.
+    exists r. split; [apply nodup_in_lookup; assumption|].
+    apply E. change r with (fst (r, FWoken)). apply in_map. exact Hin.
+  Qed.
+
+  (* every waiting run has its future in the queue (so a release can reach it) *)
+  Theorem waiting_run_is_queued : forall sched w n r, limit w = Some n -> 0 <= n ->
+    let s := exec limit init sched in
+    waiting_run w r s -> exists sm f, alookup w (sems s) = Some sm /\ alookup r (s_waiters sm) = Some f.
+  Proof.
+    intros sched w n r Hl Hn s Hw. destruct (reachable_inv sched) as [_ Hall].
+    pose proof (Hall w n Hl Hn) as W. fold s in W. pose proof (wi_queued _ _ _ W r Hw) as Hq.
+    destruct (alookup w (sems s)) as [sm|] eqn:Hs.
+    - rewrite (semv_some n s w sm Hs) in Hq. exists sm.
+      destruct (alookup r (s_waiters sm)) as [f|] eqn:Hf; [exists f; auto|].
+      apply alookup_None_notin in Hf. contradiction.
+    - unfold semv in Hq. rewrite Hs in Hq. destruct Hq.
+  Qed.
+
+  (* a waiter whose future carries the hand-off is resumed by the next segment of its task *)
+  Theorem woken_waiter_resumes : forall s r ru sm,
+    alookup r (runs s) = Some ru -> r_pc ru = PWaiting ->
+    alookup (r_wf ru) (sems s) = Some sm -> alookup r (s_waiters sm) = Some FWoken ->
+    alookup r (runs (step limit s (ARun r)))
+      = Some (mkRun (r_wf ru) (if r_mc ru then PDone else PHolding 0) (r_mc ru)).
+  Proof.
+    intros s r ru sm H0 Hpc Hs Hf. cbn [step]. rewrite H0, Hpc, Hs. unfold w_find. rewrite Hf.
+    destruct (r_mc ru); unfold commit; cbn [runs]; rewrite alookup_aupd_same, H0; reflexivity.
+  Qed.
+
+  (* a new run is admitted at once when the semaphore is not locked *)
+  Theorem fresh_run_admitted : forall s r ru n,
+    alookup r (runs s) = Some ru -> r_pc ru = PCreated -> r_mc ru = false -> limit (r_wf ru) = Some n ->
+    sem_locked (semv n s (r_wf ru)) = false ->
+    alookup r (runs (step limit s (ARun r))) = Some (mkRun (r_wf ru) (PHolding 0) false).
+  Proof.
+    intros s r ru n H0 Hpc Hmc Hl Hlk. cbn [step]. rewrite H0, Hpc, Hmc, Hl.
+    unfold semv in Hlk. unfold sem_acquire. rewrite Hlk. unfold commit. cbn [runs].
+    rewrite alookup_aupd_same, H0. reflexivity.
+  Qed.
 End Inv.
+
+(* ---------------------------------------------------------------------------------------- *)
+(* FIFO: position of a pending waiter                                                        *)
+
+Lemma ahead_pending : forall r ws p, ahead r ws = Some p -> alookup r ws = Some FPending.
+Proof.
+  induction ws as [|[k f] t IH]; cbn [ahead alookup]; intros p H; [discriminate|].
+  destruct (k =? r).
+  - destruct f; cbn in H; try discriminate. reflexivity.
+  - destruct (ahead r t) as [q|]; [|discriminate]. apply (IH q). reflexivity.
+Qed.
+
+Lemma ahead_locked : forall r sm p, ahead r (s_waiters sm) = Some p -> sem_locked sm = true.
+Proof.
+  intros r sm p H. unfold sem_locked. apply orb_true_iff. right.
+  apply ahead_pending in H. apply alookup_Some_in in H. apply existsb_exists.
+  exists (r, FPending). split; [exact H|reflexivity].
+Qed.
+
+Lemma ahead_app : forall r ws l p, ahead r ws = Some p -> ahead r (ws ++ l) = Some p.
+Proof.
+  induction ws as [|[k f] t IH]; cbn [ahead app]; intros l p H; [discriminate|].
+  destruct (k =? r); [exact H|].
+  destruct (ahead r t) as [q|] eqn:E; [|discriminate]. rewrite (IH l q eq_refl). exact H.
+Qed.
+
+Lemma ahead_remove : forall r r1 ws p, r1 <> r -> alookup r1 ws <> Some FPending ->
+  ahead r ws = Some p -> ahead r (w_remove r1 ws) = Some p.
+Proof.
+  induction ws as [|[k f] t IH]; cbn [ahead alookup w_remove]; intros p Hne Hnp H; [discriminate|].
+  destruct (k =? r1) eqn:E1.
+  - apply Z.eqb_eq in E1. subst k. destruct (r1 =? r) eqn:E; [apply Z.eqb_eq in E; contradiction|].
+    destruct (ahead r t) as [q|]; [|discriminate]. destruct f; cbn in *; congruence.
+  - cbn [ahead]. destruct (k =? r); [exact H|].
+    destruct (ahead r t) as [q|] eqn:E; [|discriminate]. rewrite (IH q Hne Hnp eq_refl). exact H.
+Qed.
+
+Lemma ahead_cancel : forall r r1 ws p, r1 <> r -> ahead r ws = Some p ->
+  exists q, ahead r (w_cancel r1 ws) = Some q /\ (q <= p)%nat.
+Proof.
+  induction ws as [|[k f] t IH]; cbn [ahead w_cancel]; intros p Hne H; [discriminate|].
+  destruct (k =? r1) eqn:E1.
+  - apply Z.eqb_eq in E1. subst k. cbn [ahead]. destruct (r1 =? r) eqn:E; [apply Z.eqb_eq in E; contradiction|].
+    destruct (ahead r t) as [q|]; [|discriminate]. exists q. split; [reflexivity|].
+    inversion H. destruct (fut_is_pending f); lia.
+  - cbn [ahead]. destruct (k =? r); [exists p; split; [exact H|lia]|].
+    destruct (ahead r t) as [q|] eqn:E; [|discriminate].
+    destruct (IH q Hne eq_refl) as (q' & A & B). rewrite A. eexists. split; [reflexivity|].
+    inversion H. destruct (fut_is_pending f); lia.
+Qed.
+
+Lemma ahead_wake : forall r ws p, ahead r ws = Some p ->
+  exists ws', wake_first ws = Some ws' /\
+    ((p = 0%nat /\ alookup r ws' = Some FWoken) \/ (exists q, p = S q /\ ahead r ws' = Some q)).
+Proof.
+  induction ws as [|[k f] t IH]; cbn [ahead wake_first]; intros p H; [discriminate|].
+  destruct (k =? r) eqn:E.
+  - destruct f; cbn in H; try discriminate. inversion H; subst.
+    eexists. split; [reflexivity|]. left. split; [reflexivity|]. cbn. rewrite E. reflexivity.
+  - destruct (ahead r t) as [q|] eqn:Eq; [|discriminate]. destruct f.
+    + eexists. split; [reflexivity|]. right. exists q. cbn in H. inversion H. split; [reflexivity|].
+      cbn [ahead]. rewrite E, Eq. reflexivity.
+    + destruct (IH q eq_refl) as (t' & A & B). rewrite A. eexists. split; [reflexivity|].
+      cbn in H. inversion H; subst. destruct B as [(-> & B)|(q' & -> & B)].
+      * left. split; [reflexivity|]. cbn. rewrite E. exact B.
+      * right. exists q'. split; [reflexivity|]. cbn [ahead]. rewrite E, B. reflexivity.
+    + destruct (IH q eq_refl) as (t' & A & B). rewrite A. eexists. split; [reflexivity|].
+      cbn in H. inversion H; subst. destruct B as [(-> & B)|(q' & -> & B)].
+      * left. split; [reflexivity|]. cbn. rewrite E. exact B.
+      * right. exists q'. split; [reflexivity|]. cbn [ahead]. rewrite E, B. reflexivity.
+Qed.
+
+Lemma woken_stays_app : forall (r : Z) ws l, alookup r ws = Some FWoken -> alookup r (ws ++ l) = Some FWoken.
+Proof. intros r ws l H. rewrite alookup_app, H. reflexivity. Qed.
+
+Lemma lookup_remove_other : forall r r1 ws, r1 <> r -> alookup r (w_remove r1 ws) = alookup r ws.
+Proof.
+  induction ws as [|[k f] t IH]; cbn [alookup w_remove]; intros Hne; [reflexivity|].
+  destruct (k =? r1) eqn:E1.
+  - apply Z.eqb_eq in E1. subst k. destruct (r1 =? r) eqn:E; [apply Z.eqb_eq in E; contradiction|reflexivity].
+  - cbn [alookup]. destruct (k =? r); [reflexivity|apply IH; exact Hne].
+Qed.
+
+Lemma lookup_cancel_other : forall r r1 ws, r1 <> r -> alookup r (w_cancel r1 ws) = alookup r ws.
+Proof.
+  induction ws as [|[k f] t IH]; cbn [alookup w_cancel]; intros Hne; [reflexivity|].
+  destruct (k =? r1) eqn:E1.
+  - apply Z.eqb_eq in E1. subst k. cbn [alookup]. destruct (r1 =? r) eqn:E; [apply Z.eqb_eq in E; contradiction|reflexivity].
+  - cbn [alookup]. destruct (k =? r); [reflexivity|apply IH; exact Hne].
+Qed.
+
+Lemma woken_stays_wake : forall r ws ws', alookup r ws = Some FWoken -> wake_first ws = Some ws' ->
+  alookup r ws' = Some FWoken.
+Proof.
+  induction ws as [|[k f] t IH]; cbn [alookup wake_first]; intros ws' H W; [discriminate|].
+  destruct (k =? r) eqn:E.
+  - inversion H; subst f. destruct (wake_first t); inversion W; subst. cbn. rewrite E. reflexivity.
+  - destruct f.
+    + inversion W; subst. cbn. rewrite E. exact H.
+    + destruct (wake_first t) as [t'|] eqn:Et; inversion W; subst. cbn. rewrite E. apply IH; auto.
+    + destruct (wake_first t) as [t'|] eqn:Et; inversion W; subst. cbn. rewrite E. apply IH; auto.
+Qed.
+
+(* rank of r in the queue: 0 = the permit has been handed to r (future woken), p+1 = pending with
+   p pending waiters before it *)
+Definition rk (r : Z) (ws : list (Z * futst)) : option nat :=
+  match alookup r ws with
+  | Some FWoken => Some 0%nat
+  | Some FPending => match ahead r ws with Some p => Some (S p) | None => None end
+  | _ => None
+  end.
+
+Lemma rk_cases : forall r ws k, rk r ws = Some k ->
+  (k = 0%nat /\ alookup r ws = Some FWoken) \/ (exists p, k = S p /\ ahead r ws = Some p).
+Proof.
+  intros r ws k H. unfold rk in H. destruct (alookup r ws) as [[| |]|] eqn:E; try discriminate.
+  - destruct (ahead r ws) as [p|] eqn:Ea; [|discriminate]. inversion H. right. exists p. auto.
+  - inversion H. left. auto.
+Qed.
+
+Lemma rk_of_woken : forall r ws, alookup r ws = Some FWoken -> rk r ws = Some 0%nat.
+Proof. intros r ws H. unfold rk. rewrite H. reflexivity. Qed.
+
+Lemma rk_of_ahead : forall r ws p, ahead r ws = Some p -> rk r ws = Some (S p).
+Proof. intros r ws p H. unfold rk. rewrite (ahead_pending _ _ _ H), H. reflexivity. Qed.
+
+Lemma rk_locked : forall r sm k, rk r (s_waiters sm) = Some k -> sem_locked sm = true.
+Proof.
+  intros r sm k H. destruct (rk_cases _ _ _ H) as [(_ & A)|(p & _ & A)].
+  - unfold sem_locked. apply orb_true_iff. right. apply existsb_exists.
+    exists (r, FWoken). split; [apply alookup_Some_in; exact A|reflexivity].
+  - eapply ahead_locked. exact A.
+Qed.
+
+Lemma rk_app : forall r ws l k, rk r ws = Some k -> rk r (ws ++ l) = Some k.
+Proof.
+  intros r ws l k H. destruct (rk_cases _ _ _ H) as [(-> & A)|(p & -> & A)].
+  - apply rk_of_woken. apply woken_stays_app. exact A.
+  - apply rk_of_ahead. apply ahead_app. exact A.
+Qed.
+
+Lemma rk_remove : forall r r1 ws k, r1 <> r -> alookup r1 ws <> Some FPending ->
+  rk r ws = Some k -> rk r (w_remove r1 ws) = Some k.
+Proof.
+  intros r r1 ws k Hne Hnp H. destruct (rk_cases _ _ _ H) as [(-> & A)|(p & -> & A)].
+  - apply rk_of_woken. rewrite lookup_remove_other by exact Hne. exact A.
+  - apply rk_of_ahead. apply ahead_remove; assumption.
+Qed.
+
+Lemma rk_cancel : forall r r1 ws k, r1 <> r -> rk r ws = Some k ->
+  exists k', rk r (w_cancel r1 ws) = Some k' /\ (k' <= k)%nat.
+Proof.
+  intros r r1 ws k Hne H. destruct (rk_cases _ _ _ H) as [(-> & A)|(p & -> & A)].
+  - exists 0%nat. split; [|lia]. apply rk_of_woken. rewrite lookup_cancel_other by exact Hne. exact A.
+  - destruct (ahead_cancel r r1 ws p Hne A) as (q & B & C). exists (S q). split; [|lia].
+    apply rk_of_ahead. exact B.
+Qed.
+
+Lemma rk_wake_up_next : forall r sm k, rk r (s_waiters sm) = Some k ->
+  rk r (s_waiters (wake_up_next sm)) = Some (pred k).
+Proof.
+  intros r sm k H. unfold wake_up_next. destruct (rk_cases _ _ _ H) as [(-> & A)|(p & -> & A)].
+  - destruct (wake_first (s_waiters sm)) as [ws'|] eqn:E; cbn [s_waiters pred].
+    + apply rk_of_woken. eapply woken_stays_wake; eassumption.
+    + exact H.
+  - destruct (ahead_wake r _ p A) as (ws' & B & C). rewrite B. cbn [s_waiters pred].
+    destruct C as [(-> & C)|(q & -> & C)]; [apply rk_of_woken; exact C|apply rk_of_ahead; exact C].
+Qed.
+
+Section Progress.
+  Variable limit : Z -> option Z.
+
+  (* r is a waiting run of w, not cancel-requested, with rank k in w's queue *)
+  Definition W (w r : Z) (k : nat) (s : st) : Prop :=
+    exists ru sm, alookup r (runs s) = Some ru /\ r_wf ru = w /\ r_pc ru = PWaiting /\ r_mc ru = false /\
+                  alookup w (sems s) = Some sm /\ rk r (s_waiters sm) = Some k.
+
+  (* r holds (or has held and returned) a permit of w *)
+  Definition G (w r : Z) (s : st) : Prop :=
+    exists ru, alookup r (runs s) = Some ru /\ r_wf ru = w /\ (pc_holding (r_pc ru) = true \/ r_pc ru = PDone).
+
+  Definition is_release (s : st) (a : act) (w : Z) : bool :=
+    match a with
+    | AFinish r' => match alookup r' (runs s) with
+                    | Some ru => (r_wf ru =? w) && pc_holding (r_pc ru)
+                    | None => false end
+    | _ => false
+    end.
+
+  Fixpoint count_releases (s : st) (sched : list act) (w : Z) : nat :=
+    match sched with
+    | [] => 0
+    | a :: t => ((if is_release s a w then 1 else 0) + count_releases (step limit s a) t w)%nat
+    end.
+
+  Lemma W_setrun : forall w r k r1 ru1 s, r1 <> r -> W w r k s -> W w r k (set_run r1 ru1 s).
+  Proof.
+    intros w r k r1 ru1 s Hne (ru & sm & A & B). exists ru, sm. unfold set_run. cbn [runs sems].
+    rewrite alookup_aupd_other by (intros E; apply Hne; symmetry; exact E). auto.
+  Qed.
+
+  Lemma W_commit_other : forall w r k w1 sm1 r1 ru1 s, r1 <> r -> w1 <> w -> W w r k s -> W w r k (commit w1 sm1 r1 ru1 s).
+  Proof.
+    intros w r k w1 sm1 r1 ru1 s Hne Hw (ru & sm & A & B & C & D & E & F). exists ru, sm. unfold commit. cbn [runs sems].
+    rewrite alookup_aupd_other by (intros X; apply Hne; symmetry; exact X).
+    rewrite alookup_aset_other by (intros X; apply Hw; symmetry; exact X). repeat split; assumption.
+  Qed.
+
+  Lemma W_commit_same : forall w r k k' sm1 r1 ru1 s, r1 <> r -> W w r k s -> rk r (s_waiters sm1) = Some k' ->
+    W w r k' (commit w sm1 r1 ru1 s).
+  Proof.
+    intros w r k k' sm1 r1 ru1 s Hne (ru & sm & A & B & C & D & E & F) H. exists ru, sm1. unfold commit. cbn [runs sems].
+    rewrite alookup_aupd_other by (intros X; apply Hne; symmetry; exact X).
+    rewrite alookup_aset_same. repeat split; assumption.
+  Qed.
+
+  Lemma G_setrun : forall w r r1 ru1 s, r1 <> r -> G w r s -> G w r (set_run r1 ru1 s).
+  Proof.
+    intros w r r1 ru1 s Hne (ru & A & B). exists ru. unfold set_run. cbn [runs].
+    rewrite alookup_aupd_other by (intros E; apply Hne; symmetry; exact E). auto.
+  Qed.
+
+  Lemma G_commit : forall w r w1 sm1 r1 ru1 s, r1 <> r -> G w r s -> G w r (commit w1 sm1 r1 ru1 s).
+  Proof.
+    intros w r w1 sm1 r1 ru1 s Hne (ru & A & B). exists ru. unfold commit. cbn [runs].
+    rewrite alookup_aupd_other by (intros E; apply Hne; symmetry; exact E). auto.
+  Qed.
+
+  (* once admitted, always admitted (holding, or done after holding) *)
+  Lemma G_stable : forall w r s a, G w r s -> G w r (step limit s a).
+  Proof.
+    intros w r s a HG. pose proof HG as (ru & A & B & C).
+    assert (Hself : forall p m, (pc_holding p = true \/ p = PDone) ->
+              G w r (set_run r (mkRun (r_wf ru) p m) s)).
+    { intros p m Hp. exists (mkRun (r_wf ru) p m). unfold set_run. cbn [runs]. rewrite alookup_aupd_same, A. auto. }
+    assert (Hselfc : forall p m sm1, (pc_holding p = true \/ p = PDone) ->
+              G w r (commit (r_wf ru) sm1 r (mkRun (r_wf ru) p m) s)).
+    { intros p m sm1 Hp. exists (mkRun (r_wf ru) p m). unfold commit. cbn [runs]. rewrite alookup_aupd_same, A. auto. }
+    destruct a as [r1 w1|r1|r1|r1|r1|r1|w1|]; cbn [step]; try exact HG.
+    - destruct (alookup r1 (runs s)) eqn:E; [exact HG|]. exists ru. cbn [runs]. rewrite alookup_app, A. auto.
+    - destruct (Z.eq_dec r1 r) as [->|Hne].
+      + rewrite A. destruct C as [C|C]; [destruct (r_pc ru); try discriminate; exact HG|rewrite C; exact HG].
+      + destruct (alookup r1 (runs s)) as [ru1|]; [|exact HG]. destruct (r_pc ru1); try exact HG.
+        * destruct (r_mc ru1); [apply G_setrun; assumption|]. destruct (limit (r_wf ru1)); [|apply G_setrun; assumption].
+          destruct (sem_acquire _ _). apply G_commit; assumption.
+        * destruct (alookup (r_wf ru1) (sems s)); [|exact HG]. destruct (w_find r1 _) as [[| |]|]; try exact HG.
+          -- destruct (r_mc ru1); apply G_commit; assumption.
+          -- apply G_commit; assumption.
+    - destruct (Z.eq_dec r1 r) as [->|Hne].
+      + rewrite A. destruct (r_pc ru) eqn:Ep; try exact HG. apply Hself. left. reflexivity.
+      + destruct (alookup r1 (runs s)) as [ru1|]; [|exact HG]. destruct (r_pc ru1); try exact HG. apply G_setrun; assumption.
+    - destruct (Z.eq_dec r1 r) as [->|Hne].
+      + rewrite A. destruct (r_pc ru) as [| |[|a']|] eqn:Ep; try exact HG. apply Hself. left. reflexivity.
+      + destruct (alookup r1 (runs s)) as [ru1|]; [|exact HG]. destruct (r_pc ru1) as [| |[|a']|]; try exact HG. apply G_setrun; assumption.
+    - destruct (Z.eq_dec r1 r) as [->|Hne].
+      + rewrite A. destruct (r_pc ru) eqn:Ep; try exact HG.
+        destruct (limit (r_wf ru)); [destruct (alookup (r_wf ru) (sems s))|];
+          first [apply Hself; right; reflexivity | apply Hselfc; right; reflexivity].
+      + destruct (alookup r1 (runs s)) as [ru1|]; [|exact HG]. destruct (r_pc ru1); try exact HG.
+        destruct (limit (r_wf ru1)); [destruct (alookup (r_wf ru1) (sems s))|];
+          first [apply G_setrun; assumption | apply G_commit; assumption].
+    - destruct (Z.eq_dec r1 r) as [->|Hne].
+      + rewrite A. destruct C as [C|C]; [destruct (r_pc ru); try discriminate; exact HG|rewrite C; exact HG].
+      + destruct (alookup r1 (runs s)) as [ru1|]; [|exact HG]. destruct (r_pc ru1); try exact HG.
+        * apply G_setrun; assumption.
+        * destruct (alookup (r_wf ru1) (sems s)); [|exact HG]. destruct (w_find r1 _) as [[| |]|]; try exact HG.
+          apply G_setrun; assumption.
+    - destruct (refs w1 (runs s)); exact HG.
+  Qed.
+
+  Lemma W_refs : forall w r k s, W w r k s -> refs w (runs s) = true.
+  Proof.
+    intros w r k s (ru & sm & A & B & C & _). unfold refs. apply existsb_exists.
+    exists (r, ru). split; [apply alookup_Some_in; exact A|]. unfold run_refs. cbn. rewrite B, Z.eqb_refl, C. reflexivity.
+  Qed.
+
+  Lemma W_step : forall w n r k s a, limit w = Some n -> a <> ACancel r -> W w r k s ->
+    G w r (step limit s a) \/
+    exists k', W w r k' (step limit s a) /\ (k' <= k)%nat /\ (is_release s a w = true -> (k' <= pred k)%nat).
+  Proof.
+    intros w n r k s a Hl Hna HW. pose proof HW as (ru & sm & A & B & C & D & E & F).
+    assert (Hstay : forall a0, is_release s a0 w = false ->
+              exists k', W w r k' s /\ (k' <= k)%nat /\ (is_release s a0 w = true -> (k' <= pred k)%nat)).
+    { intros a0 H0. exists k. split; [exact HW|]. split; [lia|]. rewrite H0. discriminate. }
+    assert (Hkeep : forall s', W w r k s' -> is_release s a w = false ->
+              exists k', W w r k' s' /\ (k' <= k)%nat /\ (is_release s a w = true -> (k' <= pred k)%nat)).
+    { intros s' H1 H0. exists k. split; [exact H1|]. split; [lia|]. rewrite H0. discriminate. }
+    assert (Hle : forall s' k', W w r k' s' -> (k' <= k)%nat -> is_release s a w = false ->
+              exists k'', W w r k'' s' /\ (k'' <= k)%nat /\ (is_release s a w = true -> (k'' <= pred k)%nat)).
+    { intros s' k' H1 H2 H0. exists k'. split; [exact H1|]. split; [lia|]. rewrite H0. discriminate. }
+    destruct a as [r1 w1|r1|r1|r1|r1|r1|w1|]; cbn [step].
+    - (* AStart *) right. destruct (alookup r1 (runs s)) eqn:E1; [apply Hstay; reflexivity|].
+      apply Hkeep; [|reflexivity]. exists ru, sm. cbn [runs sems]. rewrite alookup_app, A. repeat split; assumption.
+    - (* ARun *)
+      destruct (Z.eq_dec r1 r) as [->|Hne].
+      + rewrite A, C, B, E. unfold w_find. destruct (rk_cases _ _ _ F) as [(-> & Hf)|(p & -> & Hf)].
+        * rewrite Hf, D. left. exists (mkRun w (PHolding 0) false). unfold commit. cbn [runs].
+          rewrite alookup_aupd_same, A. cbn. auto.
+        * rewrite (ahead_pending _ _ _ Hf). right. apply Hstay. reflexivity.
+      + right. destruct (alookup r1 (runs s)) as [ru1|] eqn:E1; [|apply Hstay; reflexivity].
+        destruct (r_pc ru1) eqn:Ep1; try (apply Hstay; reflexivity).
+        * destruct (r_mc ru1); [apply Hkeep; [apply W_setrun; assumption|reflexivity]|].
+          destruct (limit (r_wf ru1)) as [n1|]; [|apply Hkeep; [apply W_setrun; assumption|reflexivity]].
+          destruct (Z.eq_dec (r_wf ru1) w) as [Ew|Ew].
+          -- rewrite Ew, E. unfold sem_acquire. rewrite (rk_locked r sm k F).
+             apply Hkeep; [|reflexivity]. apply W_commit_same with (k := k); try assumption. cbn [s_waiters].
+             apply rk_app. exact F.
+          -- destruct (sem_acquire _ _). apply Hkeep; [|reflexivity]. apply W_commit_other; assumption.
+        * destruct (alookup (r_wf ru1) (sems s)) as [sm1|] eqn:Es1; [|apply Hstay; reflexivity].
+          unfold w_find. destruct (alookup r1 (s_waiters sm1)) as [[| |]|] eqn:Ef1; try (apply Hstay; reflexivity).
+          -- (* woken *)
+             destruct (Z.eq_dec (r_wf ru1) w) as [Ew|Ew].
+             ++ rewrite Ew in *. rewrite E in Es1. inversion Es1; subst sm1.
+                assert (Hrm : rk r (w_remove r1 (s_waiters sm)) = Some k).
+                { apply rk_remove; try assumption. rewrite Ef1. discriminate. }
+                destruct (r_mc ru1).
+                ** apply Hle with (k' := pred k); [|lia|reflexivity].
+                   apply W_commit_same with (k := k); try assumption. unfold sem_resume_cancel_woken.
+                   apply rk_wake_up_next. cbn [s_waiters]. exact Hrm.
+                ** unfold sem_resume_ok. cbn [s_value]. destruct (0 <? s_value sm).
+                   --- apply Hle with (k' := pred k); [|lia|reflexivity].
+                       apply W_commit_same with (k := k); try assumption.
+                       apply rk_wake_up_next. cbn [s_waiters]. exact Hrm.
+                   --- apply Hkeep; [|reflexivity]. apply W_commit_same with (k := k); try assumption; try exact Hrm.
+             ++ destruct (r_mc ru1); apply Hkeep; try reflexivity; apply W_commit_other; assumption.
+          -- (* cancelled future *)
+             destruct (Z.eq_dec (r_wf ru1) w) as [Ew|Ew].
+             ++ rewrite Ew in *. rewrite E in Es1. inversion Es1; subst sm1.
+                apply Hkeep; [|reflexivity]. apply W_commit_same with (k := k); try assumption.
+                unfold sem_resume_cancelled. cbn [s_waiters]. apply rk_remove; try assumption. rewrite Ef1. discriminate.
+             ++ apply Hkeep; [|reflexivity]. apply W_commit_other; assumption.
+    - (* AEnter *) right. destruct (Z.eq_dec r1 r) as [->|Hne].
+      + rewrite A, C. apply Hstay. reflexivity.
+      + destruct (alookup r1 (runs s)) as [ru1|]; [|apply Hstay; reflexivity].
+        destruct (r_pc ru1); try (apply Hstay; reflexivity). apply Hkeep; [apply W_setrun; assumption|reflexivity].
+    - (* AExit *) right. destruct (Z.eq_dec r1 r) as [->|Hne].
+      + rewrite A, C. apply Hstay. reflexivity.
+      + destruct (alookup r1 (runs s)) as [ru1|]; [|apply Hstay; reflexivity].
+        destruct (r_pc ru1) as [| |[|a']|]; try (apply Hstay; reflexivity). apply Hkeep; [apply W_setrun; assumption|reflexivity].
+    - (* AFinish *) right. destruct (Z.eq_dec r1 r) as [->|Hne].
+      + rewrite A, C. apply Hstay. cbn. rewrite A, C. apply andb_false_r.
+      + destruct (alookup r1 (runs s)) as [ru1|] eqn:E1; [|apply Hstay; cbn; rewrite E1; reflexivity].
+        destruct (r_pc ru1) eqn:Ep1; try (apply Hstay; cbn; rewrite E1, Ep1; apply andb_false_r).
+        destruct (Z.eq_dec (r_wf ru1) w) as [Ew|Ew].
+        * rewrite Ew, Hl, E. exists (pred k). split; [|split; [lia|intros _; lia]].
+          apply W_commit_same with (k := k); try assumption. unfold sem_release.
+          apply rk_wake_up_next. cbn [s_waiters]. exact F.
+        * assert (Hrel : is_release s (AFinish r1) w = false).
+          { cbn [is_release]. rewrite E1, Ep1. apply Z.eqb_neq in Ew. rewrite Ew. reflexivity. }
+          destruct (limit (r_wf ru1)); [destruct (alookup (r_wf ru1) (sems s))|].
+          -- apply Hkeep; [apply W_commit_other; assumption|exact Hrel].
+          -- apply Hkeep; [apply W_setrun; assumption|exact Hrel].
+          -- apply Hkeep; [apply W_setrun; assumption|exact Hrel].
+    - (* ACancel *) right. destruct (Z.eq_dec r1 r) as [->|Hne]; [contradiction|].
+      destruct (alookup r1 (runs s)) as [ru1|] eqn:E1; [|apply Hstay; reflexivity].
+      destruct (r_pc ru1) eqn:Ep1; try (apply Hstay; reflexivity).
+      + apply Hkeep; [apply W_setrun; assumption|reflexivity].
+      + destruct (alookup (r_wf ru1) (sems s)) as [sm1|] eqn:Es1; [|apply Hstay; reflexivity].
+        unfold w_find. destruct (alookup r1 (s_waiters sm1)) as [[| |]|] eqn:Ef1; try (apply Hstay; reflexivity).
+        * destruct (Z.eq_dec (r_wf ru1) w) as [Ew|Ew].
+          -- rewrite Ew in *. rewrite E in Es1. inversion Es1; subst sm1.
+             destruct (rk_cancel r r1 (s_waiters sm) k Hne F) as (k' & Hk' & Hle').
+             apply Hle with (k' := k'); [|exact Hle'|reflexivity].
+             exists ru, (mkSem (s_value sm) (w_cancel r1 (s_waiters sm))). cbn [runs sems s_waiters].
+             rewrite alookup_aset_same. repeat split; assumption.
+          -- apply Hkeep; [|reflexivity]. exists ru, sm. cbn [runs sems].
+             rewrite alookup_aset_other by (intros X; apply Ew; symmetry; exact X). repeat split; assumption.
+        * apply Hkeep; [apply W_setrun; assumption|reflexivity].
+    - (* AGc *) right. destruct (refs w1 (runs s)) eqn:Er; [apply Hstay; reflexivity|].
+      apply Hkeep; [|reflexivity]. destruct (Z.eq_dec w1 w) as [->|Ew].
+      + rewrite (W_refs _ _ _ _ HW) in Er. discriminate.
+      + exists ru, sm. cbn [runs sems]. rewrite alookup_adel_other by (intros X; apply Ew; symmetry; exact X).
+        repeat split; assumption.
+    - right. apply Hstay. reflexivity.
+  Qed.
+
+  (* FIFO progress: a waiting run with p pending waiters before it owns a permit as soon as p+1
+     permits of its instance have been released (rank k = p+1), whatever else is scheduled in
+     between — other instances, new arrivals, cancellations of other runs, semaphore drops *)
+  Theorem fifo_progress : forall sched w n r k s, limit w = Some n ->
+    W w r k s \/ G w r s -> ~ In (ACancel r) sched -> (k <= count_releases s sched w)%nat ->
+    W w r 0 (exec limit s sched) \/ G w r (exec limit s sched).
+  Proof.
+    induction sched as [|a t IH]; intros w n r k s Hl H Hnc Hk.
+    - cbn in Hk. assert (k = 0%nat) by lia. subst k. exact H.
+    - unfold exec. rewrite run_sched_cons. fold (exec limit (step limit s a) t).
+      assert (Hna : a <> ACancel r) by (intros ->; apply Hnc; left; reflexivity).
+      assert (Hnc' : ~ In (ACancel r) t) by (intros X; apply Hnc; right; exact X).
+      cbn [count_releases] in Hk. destruct H as [HW|HG].
+      + destruct (W_step w n r k s a Hl Hna HW) as [HG'|(k' & HW' & Hle & Hrel)].
+        * apply (IH w n r 0%nat); auto. lia.
+        * apply (IH w n r k'); auto. destruct (is_release s a w); [specialize (Hrel eq_refl)|]; lia.
+      + apply (IH w n r 0%nat); auto; [right; apply G_stable; exact HG|lia].
+  Qed.
+
+  (* ... and the hand-off turns into execution at the run's next segment *)
+  Theorem handed_run_executes : forall w r s, W w r 0 s -> G w r (step limit s (ARun r)).
+  Proof.
+    intros w r s (ru & sm & A & B & C & D & E & F). cbn [step]. rewrite A, C, B, E. unfold w_find.
+    destruct (rk_cases _ _ _ F) as [(_ & Hf)|(p & Hp & _)]; [|discriminate].
+    rewrite Hf, D. exists (mkRun w (PHolding 0) false). unfold commit. cbn [runs].
+    rewrite alookup_aupd_same, A. cbn. auto.
+  Qed.
+End Progress.
+
+(* ---------------------------------------------------------------------------------------- *)
+(* instances are independent                                                                 *)
+
+Section Indep.
+  Variable limit : Z -> option Z.
+
+  (* everything the model knows about instance w: its semaphore entry and its runs *)
+  Definition proj (w : Z) (s : st) : option sem * list (Z * run) :=
+    (alookup w (sems s), filter (fun kv => r_wf (snd kv) =? w) (runs s)).
+
+  (* the instance an action belongs to, in the state in which it is executed *)
+  Definition act_instance (s : st) (a : act) : option Z :=
+    match a with
+    | AStart _ w => Some w
+    | AGc w => Some w
+    | ANop => None
+    | ARun r | AEnter r | AExit r | AFinish r | ACancel r =>
+        match alookup r (runs s) with Some ru => Some (r_wf ru) | None => None end
+    end.
+
+  Lemma filter_aupd_other : forall (P : run -> bool) r ru ru' l,
+    NoDup (akeys l) -> alookup r l = Some ru -> P ru = false -> P ru' = false ->
+    filter (fun kv => P (snd kv)) (aupd r ru' l) = filter (fun kv => P (snd kv)) l.
+  Proof.
+    induction l as [|[k v] t IH]; cbn [alookup aupd akeys map fst]; intros Hnd H A B; [reflexivity|].
+    inversion Hnd as [|? ? Hni Hnd']; subst. destruct (k =? r) eqn:E.
+    - inversion H; subst v. apply Z.eqb_eq in E. subst k. cbn [filter snd]. rewrite A, B.
+      rewrite aupd_notin by exact Hni. reflexivity.
+    - cbn [filter snd]. rewrite (IH Hnd' H A B). reflexivity.
+  Qed.
+
+  Lemma proj_upd_other : forall w r ru ru' tab' s,
+    NoDup (akeys (runs s)) -> alookup r (runs s) = Some ru -> r_wf ru <> w -> r_wf ru' = r_wf ru ->
+    alookup w tab' = alookup w (sems s) ->
+    proj w (mkSt tab' (aupd r ru' (runs s))) = proj w s.
+  Proof.
+    intros w r ru ru' tab' s Hnd H0 Hw Hw' Htab. unfold proj. cbn [sems runs]. rewrite Htab. f_equal.
+    apply (filter_aupd_other (fun x => r_wf x =? w) r ru ru'); try assumption.
+    - apply Z.eqb_neq. exact Hw.
+    - rewrite Hw'. apply Z.eqb_neq. exact Hw.
+  Qed.
+
+  (* an action of another instance (start, admission, step, finish, cancel, drop) changes nothing
+     that instance w can see *)
+  Theorem other_instance_invisible : forall s a w, NoDup (akeys (runs s)) ->
+    act_instance s a <> Some w -> proj w (step limit s a) = proj w s.
+  Proof.
+    intros s a w Hnd Hoth.
+    assert (Hset : forall r ru ru', alookup r (runs s) = Some ru -> r_wf ru <> w -> r_wf ru' = r_wf ru ->
+              proj w (set_run r ru' s) = proj w s).
+    { intros r ru ru' H0 Hw Hw'. unfold set_run. apply proj_upd_other with (ru := ru); auto. }
+    assert (Hcom : forall r ru ru' sm', alookup r (runs s) = Some ru -> r_wf ru <> w -> r_wf ru' = r_wf ru ->
+              proj w (commit (r_wf ru) sm' r ru' s) = proj w s).
+    { intros r ru ru' sm' H0 Hw Hw'. unfold commit. apply proj_upd_other with (ru := ru); auto.
+      apply alookup_aset_other. intros X. apply Hw. symmetry. exact X. }
+    destruct a as [r w1|r|r|r|r|r|w1|]; cbn [step act_instance] in *; try reflexivity.
+    - destruct (alookup r (runs s)); [reflexivity|]. unfold proj. cbn [sems runs]. f_equal.
+      rewrite filter_app. cbn. destruct (w1 =? w) eqn:E; [apply Z.eqb_eq in E; congruence|apply app_nil_r].
+    - destruct (alookup r (runs s)) as [ru|] eqn:H0; [|reflexivity].
+      assert (Hw : r_wf ru <> w) by congruence.
+      destruct (r_pc ru); try reflexivity.
+      + destruct (r_mc ru); [apply Hset with (ru := ru); auto|].
+        destruct (limit (r_wf ru)); [|apply Hset with (ru := ru); auto].
+        destruct (sem_acquire _ _). apply Hcom; auto.
+      + destruct (alookup (r_wf ru) (sems s)); [|reflexivity]. destruct (w_find r _) as [[| |]|]; try reflexivity.
+        * destruct (r_mc ru); apply Hcom; auto.
+        * apply Hcom; auto.
+    - destruct (alookup r (runs s)) as [ru|] eqn:H0; [|reflexivity].
+      assert (Hw : r_wf ru <> w) by congruence.
+      destruct (r_pc ru); try reflexivity. apply Hset with (ru := ru); auto.
+    - destruct (alookup r (runs s)) as [ru|] eqn:H0; [|reflexivity].
+      assert (Hw : r_wf ru <> w) by congruence.
+      destruct (r_pc ru) as [| |[|a]|]; try reflexivity. apply Hset with (ru := ru); auto.
+    - destruct (alookup r (runs s)) as [ru|] eqn:H0; [|reflexivity].
+      assert (Hw : r_wf ru <> w) by congruence.
+      destruct (r_pc ru); try reflexivity.
+      destruct (limit (r_wf ru)); [destruct (alookup (r_wf ru) (sems s))|];
+        first [apply Hcom; auto; fail | apply Hset with (ru := ru); auto].
+    - destruct (alookup r (runs s)) as [ru|] eqn:H0; [|reflexivity].
+      assert (Hw : r_wf ru <> w) by congruence.
+      destruct (r_pc ru); try reflexivity.
+      + apply Hset with (ru := ru); auto.
+      + destruct (alookup (r_wf ru) (sems s)); [|reflexivity]. destruct (w_find r _) as [[| |]|]; try reflexivity.
+        * unfold proj. cbn [sems runs]. rewrite alookup_aset_other by (intros X; apply Hw; symmetry; exact X). reflexivity.
+        * apply Hset with (ru := ru); auto.
+    - destruct (refs w1 (runs s)); [reflexivity|]. unfold proj. cbn [sems runs].
+      rewrite alookup_adel_other; [reflexivity|]. congruence.
+  Qed.
+
+  Fixpoint all_other (w : Z) (s : st) (sched : list act) : Prop :=
+    match sched with
+    | [] => True
+    | a :: t => act_instance s a <> Some w /\ all_other w (step limit s a) t
+    end.
+
+  (* whatever the other instances do, for however long: w's semaphore and runs are untouched *)
+  Theorem others_cannot_interfere : forall sched s w, Inv limit s -> all_other w s sched ->
+    proj w (exec limit s sched) = proj w s.
+  Proof.
+    induction sched as [|a t IH]; intros s w Hi Ho; [reflexivity|].
+    destruct Ho as [Ha Ht]. unfold exec. rewrite run_sched_cons. fold (exec limit (step limit s a) t).
+    rewrite IH; [|apply step_inv; exact Hi|exact Ht].
+    apply other_instance_invisible; [destruct Hi; assumption|exact Ha].
+  Qed.
+End Indep.
